@@ -31,7 +31,9 @@ import (
 	"net/netip"
 	"net/url"
 	"os"
+	"os/exec"
 	"reflect"
+	"regexp"
 	"sort"
 	"strconv"
 	"strings"
@@ -45,9 +47,21 @@ import (
 )
 
 func TestMain(m *testing.M) {
+	if raw := os.Getenv("C20_DL_CASE"); raw != "" {
+		// child process of TestDefaultLogger: serve the sequence with fox.Logger() writing to this process's stdout/stderr
+		defaultLoggerChild(raw)
+		os.Exit(0)
+	}
 	stats.Init("C20")
 	// fox's recorder reports superfluous WriteHeader calls through the std logger; keep the run logs readable
 	log.SetOutput(io.Discard)
+	stats.RegisterReplay("default-logger", func(raw json.RawMessage) error {
+		var c DLCase
+		if err := json.Unmarshal(raw, &c); err != nil {
+			return err
+		}
+		return checkDefaultLogger(&c)
+	})
 	stats.RegisterReplay("logger", func(raw json.RawMessage) error {
 		var c Case
 		if err := json.Unmarshal(raw, &c); err != nil {
@@ -1274,4 +1288,107 @@ func TestKinds(t *testing.T) {
 		}
 	}
 	stats.Note("handler_kinds", keys)
+}
+
+// ---------------------------------------------------------------- the built-in handler's own output
+
+// DLCase: a sequence of requests served by a router whose Logger is fox.Logger(), i.e. the built-in pretty handler writing
+// to the process's stdout (and stderr for ERROR). Each request has a path of its own: a marker followed by Pad bytes.
+type DLReq struct {
+	Pad    int `json:"pad"`
+	Status int `json:"status"`
+}
+
+type DLCase struct {
+	Reqs []DLReq `json:"reqs"`
+}
+
+func (c *DLCase) path(i int) string {
+	return fmt.Sprintf("/dl/r%dq%s", i, strings.Repeat("p", c.Reqs[i].Pad))
+}
+
+func defaultLoggerChild(raw string) {
+	var c DLCase
+	if err := json.Unmarshal([]byte(raw), &c); err != nil {
+		fmt.Println("C20-CHILD-ERROR", err)
+		return
+	}
+	f, err := fox.New(fox.WithMiddleware(fox.Logger()))
+	if err != nil {
+		fmt.Println("C20-CHILD-ERROR", err)
+		return
+	}
+	f.MustHandle("GET", "/dl/{p}", func(fc fox.Context) {
+		code, _ := strconv.Atoi(fc.Request().Header.Get("X-Code"))
+		fc.Writer().WriteHeader(code)
+	})
+	for i, q := range c.Reqs {
+		req := httptest.NewRequest("GET", "http://dl.test"+c.path(i), nil)
+		req.Header.Set("X-Code", strconv.Itoa(q.Status))
+		f.ServeHTTP(httptest.NewRecorder(), req)
+	}
+}
+
+var ansiRe = regexp.MustCompile("\x1b\\[[0-9;]*m")
+
+// checkDefaultLogger runs the sequence in a child process and reads what the built-in handler printed: one "[FOX]" line per
+// request, about that request (its path, its status, the level that goes with the status), and nothing else.
+func checkDefaultLogger(c *DLCase) error {
+	raw, _ := json.Marshal(c)
+	cmd := exec.Command(os.Args[0], "-test.run=^$")
+	cmd.Env = append(os.Environ(), "C20_DL_CASE="+string(raw))
+	out, err := cmd.CombinedOutput()
+	if err != nil {
+		return fmt.Errorf("default logger: child process failed: %v: %.300s", err, out)
+	}
+	text := ansiRe.ReplaceAllString(string(out), "")
+	if strings.Contains(text, "C20-CHILD-ERROR") {
+		return fmt.Errorf("default logger: %.300s", text)
+	}
+	if n := strings.Count(text, "[FOX]"); n != len(c.Reqs) {
+		return fmt.Errorf("default logger: %d requests served, the output holds %d record prefixes \"[FOX]\" (%d bytes)", len(c.Reqs), n, len(text))
+	}
+	lines := strings.Split(strings.TrimRight(text, "\n"), "\n")
+	seen := map[int]bool{}
+	for _, ln := range lines {
+		if !strings.HasPrefix(ln, "[FOX]") {
+			return fmt.Errorf("default logger: output line does not start a record: %.120q", ln)
+		}
+		i := -1
+		if k := strings.Index(ln, "path=/dl/r"); k >= 0 {
+			fmt.Sscanf(ln[k+len("path=/dl/r"):], "%d", &i)
+		}
+		if i < 0 || i >= len(c.Reqs) || seen[i] {
+			return fmt.Errorf("default logger: a record names no request of the sequence, or one twice: %.160q", ln)
+		}
+		seen[i] = true
+		q := c.Reqs[i]
+		lvl := map[int]string{2: "INFO", 3: "DEBUG", 4: "WARN", 5: "ERROR"}[q.Status/100]
+		if !strings.Contains(ln, "path="+c.path(i)+" ") || !strings.Contains(ln, fmt.Sprintf("status= %d ", q.Status)) || !strings.Contains(ln, "| "+lvl) || strings.Count(ln, "path=") != 1 {
+			return fmt.Errorf("default logger: the record of request %d (status %d, %d-byte path) reads %.200q ... (%d bytes)", i, q.Status, len(c.path(i)), ln, len(ln))
+		}
+	}
+	return nil
+}
+
+func TestDefaultLogger(t *testing.T) {
+	rapid.Check(t, func(t *rapid.T) {
+		c := &DLCase{}
+		big := false
+		for i, n := 0, gen.IntR(t, 3, 30, "nreq"); i < n; i++ {
+			q := DLReq{Pad: gen.Pick(t, []int{0, 0, 3, 900, 17000, 40000}, "pad"), Status: gen.Pick(t, []int{200, 204, 301, 404, 500}, "status")}
+			big = big || q.Pad > 16000
+			c.Reqs = append(c.Reqs, q)
+		}
+		stats.EvalN(len(c.Reqs))
+		stats.Sample(c)
+		stats.Class("default-handler-output-read-from-a-child-process")
+		if big {
+			stats.NonTrivial(fmt.Sprintf("dl|%+v", c.Reqs))
+		}
+		if err := checkDefaultLogger(c); err != nil {
+			stats.Fail("default-logger", c, "%v", err)
+			t.Fatalf("%v", err)
+		}
+	})
 }
